@@ -40,7 +40,11 @@ def vh(args, stdin=None, timeout=3600, check=True, binary=VH):
 
 
 # ---------------------------------------------------------------- spec-derived exports
-def spec_stamp(files=("Text.tla", "Ast.tla", "Gram.tla", "MC_Export.tla")):
+EXPORT_DEPS = ("Text.tla", "Ast.tla", "Gram.tla", "MC_Export.tla", "RefSem.tla", "Expand.tla", "ExpandFix.tla", "Escape.tla", "Options.tla",
+               "Spell.tla", "Contract.tla")
+
+
+def spec_stamp(files=EXPORT_DEPS):
     h = hashlib.sha256()
     for f in files:
         with open(os.path.join(SPEC, f), "rb") as fh:
